@@ -8,6 +8,7 @@ import (
 	"strconv"
 	"strings"
 	"time"
+	"unicode/utf8"
 
 	"github.com/theparanoids/ysshra/message"
 	"github.com/theparanoids/ysshra/verifharness/lib/ev"
@@ -31,7 +32,9 @@ func jsonRoundTrip(r *ev.Run, c *ev.Case, a *message.Attributes) {
 	}
 	if err == nil {
 		ac := *a // the encoder gives the same text for the same value whenever asked, also from several goroutines at once
-		encRing.Add(r, c, func() string { return ev.Digest(func() string { t, e := ac.Marshal(); return fmt.Sprint(t, e != nil) }) }, fmt.Sprint(text, false), given)
+		encRing.Add(r, c, func() string {
+			return ev.Digest(func() string { t, e := ac.Marshal(); return fmt.Sprint(t, e != nil) })
+		}, fmt.Sprint(text, false), given)
 	}
 	if now := js(a); now != given {
 		// the round trip is judged against the value the caller passed, not against what encoding left of it
@@ -222,7 +225,9 @@ func unmarshalDigest(text string) string {
 
 func jsonNotLegacy(r *ev.Run, c *ev.Case, text, shape string) {
 	r.Eval(1)
-	defer func() { ring.Add(r, c, func() string { return ev.Digest(func() string { return unmarshalDigest(text) }) }, ev.Digest(func() string { return unmarshalDigest(text) }), text) }()
+	defer func() {
+		ring.Add(r, c, func() string { return ev.Digest(func() string { return unmarshalDigest(text) }) }, ev.Digest(func() string { return unmarshalDigest(text) }), text)
+	}()
 	var got *message.Attributes
 	var err error
 	if r.Guard(c, "Unmarshal", rec{Text: text, What: shape}, func() { got, err = message.Unmarshal(text) }) {
@@ -288,6 +293,16 @@ func legacyText(r *ev.Run, c *ev.Case) {
 			v = msgref.CleanStr(c.Rand, 8)
 			if c.Rand.Intn(3) == 0 {
 				v += "=" + msgref.CleanStr(c.Rand, 3)
+			}
+		}
+		if len(v) > 1 && c.Rand.Intn(5) == 0 {
+			// white space other than the separator (U+0020) inside a value belongs to the value
+			k := 1 + c.Rand.Intn(len(v)-1)
+			for !utf8.RuneStart(v[k]) {
+				k--
+			}
+			if k > 0 {
+				v = v[:k] + []string{"\t", "\u00a0", "\u3000", "\u0085", "\v", "\u2003"}[c.Rand.Intn(6)] + v[k:]
 			}
 		}
 		switch c.Rand.Intn(8) {
